@@ -98,6 +98,7 @@ def setup() -> None:
     T.install_deep(T.module_functions(B) + T.module_functions(L))
     U.Lock = T.SimLock
     T.neutralise_real_locks()
+    T.install_threading_factories()
     _setup_done = True
 
 
@@ -411,10 +412,11 @@ def run(tape: Tape) -> Outcome:
     entry_len_by_round = {}
     sched_traces = []
 
-    def do_load(p: Proc, n: str):
+    def do_load(p: Proc, n: str, reset: bool = True):
         """Runs inside the process (possibly a sim thread).  Returns result key."""
-        fs.reads[p.pid] = []
-        mc.reads[p.pid] = []
+        if reset:  # (threads of one process share the read log of their round)
+            fs.reads[p.pid] = []
+            mc.reads[p.pid] = []
         fired0 = len(fs.fired) + len(mc.fired)
         src = store[n]
         env = p.env
@@ -615,11 +617,13 @@ def run(tape: Tape) -> Outcome:
                 fs.sched = sched
                 results = {}
                 before_src = dict(store)
+                fs.reads[p.pid] = []
+                mc.reads[p.pid] = []
 
                 def tbody(k, n, p=p):
                     def fn():
                         try:
-                            results[k] = do_load(p, n)
+                            results[k] = do_load(p, n, reset=False)
                         except F.SimCrash:
                             results[k] = "CRASHED"
                     return fn
